@@ -55,23 +55,6 @@ theorem close_idempotent (l : Life) (hc : l.closed = true) : step l .closeAgain 
 theorem clean_of_closed {l : Life} (h : Reach l) (hc : l.closed = true) (hi : l.inClose = false) : Clean l :=
   ⟨hc, hi, closed_implies_hook_once h hc hi, (tables_cleared_on_close h hc hi).1, (tables_cleared_on_close h hc hi).2⟩
 
-theorem reach_step {l l' : Life} {e : Ev} (h : Reach l) (hs : step l e = some l') : Reach l' := by
-  obtain ⟨es, hr⟩ := h
-  refine ⟨es ++ [e], ?_⟩
-  have key : ∀ (es : List Ev) (t : Life), run t es = some l → run t (es ++ [e]) = some l' := by
-    intro es
-    induction es with
-    | nil => intro t ht; simp only [run, Option.some.injEq] at ht; subst ht; simp [run, hs]
-    | cons e' es ih =>
-      intro t ht
-      simp only [run, List.cons_append] at ht ⊢
-      split at ht
-      · rename_i t1 ht1
-        first | rw [ht1] | skip
-        exact ih t1 ht
-      · cases ht
-  exact key es _ hr
-
 /-- **local close.** `close()` is always possible; once its `try:` suite is over — however it ended: the
 HANDLE_CLOSE written, EOFError, a raising `before_closed` hook — the side is cleanly closed.  (Whether the
 call then raises the hook's exception is `close_catchall`'s business; the side is clean either way.) -/
